@@ -99,7 +99,7 @@ pub async fn run_case(case: &Case, ch: &mut dyn Choose) -> Outc {
     let mut q2_ids: VecDeque<u16> = VecDeque::new();
     let mut last_rel: Option<u16> = None;
     for (i, r) in case.reqs.iter().enumerate() {
-        let gated = case.ready_mask >> i & 1 == 0;
+        let gated = (case.ready_mask >> (i % 32)) & 1 == 0; // (long streams have more than 32 requests)
         next_id += 1;
         let id = next_id;
         let code = if v5 { Some(0) } else { None };
